@@ -140,4 +140,5 @@ class JWTClaimsRegistry(ClaimsRegistry):
 
 
 def _validate_numeric_time(s: int) -> bool:
-    return isinstance(s, (int, float))
+    # a JSON boolean is not a number, and NaN compares false with every time
+    return isinstance(s, (int, float)) and not isinstance(s, bool) and s == s
